@@ -75,6 +75,15 @@ MUTANTS = [
     ("C17-polars-weights-mask", ["C17"], S + "compat/polars.py", "    return extract_weights(array, array_mask=array_mask)  # type: ignore", "    return extract_weights(array, array_mask=None)  # type: ignore", "polars Series weights not masked with the NaN positions"),
     ("C18-isub-missed-first", ["C18"], S + "histogram_base.py", "                self._coerce_dtype(other.dtype)\n                self.frequencies = (", "                self._coerce_dtype(other.dtype)\n                self._missed -= other._missed\n                self.frequencies = (", "in-place subtraction changes the missed values before the (possibly refused) contents are assigned"),
     ("C18-setdtype-before-check", ["C18", "C13"], S + "histogram_base.py", "        value, type_info = self._eval_dtype(value)\n        if value == self._dtype:\n            return\n", "        value, type_info = self._eval_dtype(value)\n        if value == self._dtype:\n            return\n        old_dtype, self._dtype = self._dtype, value\n        self._dtype = old_dtype if np.can_cast(old_dtype, value) else value\n", "set_dtype records the new dtype before the admissibility check"),
+    # --- round-2 sub-agent changes whose scratch trees were removed before intake; re-created from the agents' descriptions ---
+    ("R2-C03-mask-tolerance", ["C03", "C02"], S + "_bin_utils.py", "                if bins[i, 1] != bins[i + 1, 0]:\n                    edges_.append(bins[i + 1, 0])",
+     "                if not is_consecutive(bins[i : i + 2]):\n                    edges_.append(bins[i + 1, 0])",
+     "ND batch path: a real gap narrower than the allclose tolerance is merged into the following bin (fill / find_bin still miss it)"),
+    ("R2-C07-is-rising-uint", ["C07"], S + "_bin_utils.py", "    if np.any(bins[:, 0] >= bins[:, 1]):\n        return False\n    if np.any(bins[1:, 0] < bins[:-1, 1]):\n        return False\n    return True",
+     "    widths = bins[:, 1] - bins[:, 0]\n    gaps = bins[1:, 0] - bins[:-1, 1]\n    return bool(np.all(widths > 0) and np.all(gaps >= 0))",
+     "is_rising by subtraction: unsigned integer edge arrays wrap around, so descending / overlapping uint edges are accepted"),
+    ("R2-C07-copy-align", ["C07", "C12"], S + "binnings.py", "            align=self._align,  # Not necessary\n", "",
+     "FixedWidthBinning.copy() loses align=False: an empty copy filled later gets other bins than its source"),
     ("C20-bar-centres", ["C20"], S + "plotting/matplotlib.py", "    ax.bar(\n        h1.bin_left_edges,\n        data,", "    ax.bar(\n        h1.bin_centers,\n        data,", "bars drawn from the bin centres"),
     ("C20-errors-not-divided", ["C20"], S + "plotting/common.py", "        data = histogram.errors / histogram.bin_sizes", "        data = histogram.errors", "density error bars not divided by the bin size"),
     ("C20-image-not-flipped", ["C20"], S + "plotting/matplotlib.py", "        data.T[::-1, :],", "        data.T,", "image rows not flipped (cells upside down)"),
